@@ -14,6 +14,8 @@ import GrinVerif.Model.DecSer
                                            `<now>:<ftl>:<pow>` = clock, future time limit, verdict of `verify_size`;
                                            `max maxreq peak ≤ alloc + 1024`, no slack proportional to the input)
     codec memsize <T>                    => <size_of::<T>()>
+    codec rdr <method> <bin|buf|stream> <arg> <hex> => ok <value> <consumed> | err <E> | panic
+                                          (`Reader` methods called directly on each concrete reader)
 
     codec run <ver> <[frag,frag,…]>      => [ev;ev;…;end:<E>:<bytes_read>[:<maxreq>]]   (C19, real `Codec`)
     codec hs accept|initiate <genesis> <stream> => ok <version> | err <E>              (C19, real `Handshake`)
@@ -179,6 +181,7 @@ def runDecS (d : String) (rd : Rdr) (ver : Nat) (ex : Int × Nat × Bool) (bs : 
   | "output" => some (render (fun o => toHex (encOutput o)) len (rOutput rd bs))
   | "rproof" => some (render (fun o => toHex (encRangeProof o)) len (rRangeProof rd bs))
   | "kernel" => some (render (fun k => toHex (encTxKernel ver .full k)) len (rTxKernel rd c bs))
+  | "kernel:nrd" => some (render (fun k => toHex (encTxKernel ver .full k)) len (rTxKernel rd { c with nrd := true } bs))
   | "input" => some (render (fun i => toHex (encInput i)) len (rInput rd bs))
   | "outid" => some (render (fun i => toHex (encOutputId i)) len (rOutputId rd bs))
   | "tx" => some (render (fun t => showE (encTransaction c.key ver .full t)) len (rTransaction rd c bs))
@@ -215,6 +218,28 @@ def judgeS (cls : String) (alloc : Nat) (impl : String) : Verdict :=
       else .ok
     | _, _ => .unknown
   | _ => .unknown
+
+/-- a `Reader` method called directly: `ok <value> <consumed>` / `err <E>` / `panic`.  `StreamingReader`
+(`stream`) reads like the `BinReader` for the lengths used here (it has no 100 000 cap). -/
+def runRdr (m : String) (rd : Rdr) (arg : Nat) (bs : Bytes) : Option String :=
+  let sh (o : Outcome String) : String :=
+    match o with
+    | .ok v r _ => s!"ok {v} {bs.length - r.length}"
+    | .err e _ => "err " ++ e.name
+    | .panic _ _ => "panic"
+  let i32 (u : Nat) : Int := if u < 2^31 then (u : Int) else (u : Int) - 2^32
+  match m with
+  | "u8" => some (sh ((rU8 bs).map toString))
+  | "u16" => some (sh ((rU16 bs).map toString))
+  | "u32" => some (sh ((rU32 bs).map toString))
+  | "u64" => some (sh ((rU64 bs).map toString))
+  | "i64" => some (sh ((rI64 bs).map toString))
+  | "i32" => some (sh ((rU32 bs).map fun u => toString (i32 u)))
+  | "fixed" => some (sh ((rFixed rd arg bs).map toHex))
+  | "lenprefix" => some (sh ((rBytesLenPrefix rd bs).map toHex))
+  | "empty" => some (sh ((rEmpty arg bs).map fun _ => "-"))
+  | "expect" => some (sh ((rExpectU8 arg bs).map toString))
+  | _ => none
 
 def memSize : String → Option Nat
   | "commitment" => some COMMIT_MEM
@@ -458,6 +483,14 @@ def handle (st : St) (args : List String) (impl : String) : St × Verdict :=
       | some (cls, alloc) => (st, judgeS cls alloc impl)
       | none => (st, .unknown)
     | _, _, _, _ => (st, .unknown)
+  | ["rdr", m, rd, arg, hex] =>
+    let rd' := if rd = "stream" then some Rdr.bin else parseRdr rd
+    match rd', nat? arg, parseHex hex with
+    | some rd, some arg, some bs =>
+      match runRdr m rd arg bs with
+      | some model => (st, cmpModel model impl)
+      | none => (st, .unknown)
+    | _, _, _ => (st, .unknown)
   | ["memsize", t] =>
     match memSize t with
     | some n => (st, cmpModel (toString n) impl)
